@@ -156,3 +156,42 @@ func focusedAggregateShapes() []string {
 	}
 	return out
 }
+
+// focusedAggTraversalShapes: the aggregate-traversal-count shape (source MATCH, traversal MATCH, WITH source, count(terminal), ranked RETURN)
+// with every range form, with and without kinds on the terminal (a source may then satisfy the terminal's constraint: zero-length matches).
+func focusedAggTraversalShapes() []string {
+	var out []string
+	for _, src := range []string{"(u:NodeKind1)", "(u)", "(u:NodeKind1:NodeKind2)"} {
+		for _, rng := range []string{"*0..", "*0..2", "*1..", "*1..2", "*2..3", "*", "*..2"} {
+			for _, term := range []string{"(g)", "(g:NodeKind2)", "(g:NodeKind1)"} {
+				for _, tail := range []string{
+					"with u, count(g) as n return u, n order by n desc limit 5",
+					"with u, count(g) as n return u order by n desc limit 2",
+				} {
+					out = append(out, fmt.Sprintf("match %s match (u)-[:EdgeKind1%s]->%s %s", src, rng, term, tail))
+				}
+			}
+		}
+	}
+	out = append(out,
+		"match (u:NodeKind1) where u.name = 'x' match (u)-[:EdgeKind1*0..]->(g) with u, count(g) as n return u, n order by n desc limit 5",
+		"match (u:NodeKind1) match (u)-[:EdgeKind1|EdgeKind2*0..3]->(g) where g.name = 'x' with u, count(g) as n return u, n order by n desc limit 5",
+		"match (u:NodeKind1) match (u)<-[:EdgeKind1*0..]-(g) with u, count(g) as n return u, n order by n desc limit 5",
+	)
+	return out
+}
+
+// focusedCollectMembershipShapes: collect(node) AS xs used as the right operand of IN, with every way of reading xs afterwards.
+func focusedCollectMembershipShapes() []string {
+	var out []string
+	for _, neg := range []string{"", "not "} {
+		for _, ret := range []string{
+			"return c", "return c, xs as xs", "return c, xs", "return c, xs as ys", "return c, size(xs) as n",
+			"with c, xs as xs return c, xs", "with c, xs return c, xs as xs", "return c, xs as xs order by id(c)", "return count(c) as n, xs as xs",
+		} {
+			out = append(out, fmt.Sprintf("match (s:NodeKind1) with collect(s) as xs match (c:NodeKind2) where %sc in xs %s", neg, ret))
+			out = append(out, fmt.Sprintf("match (s)-[:EdgeKind1]->(t) with collect(t) as xs match (c) where %sc in xs %s", neg, ret))
+		}
+	}
+	return out
+}
